@@ -50,6 +50,9 @@ Seeds == {
        propertyNames |-> Sch([type |-> "object", title |-> "Thing", minProperties |-> 7]),
        depsS |-> << <<"a", Sch([type |-> "object", title |-> "Thing", minProperties |-> 8])>> >>])
     @@ ("not" :> Sch([type |-> "object", title |-> "Thing", minProperties |-> 9])),
+  (* numeric types meeting in compositions (which member builds the value?) *)
+  Sch([type |-> "number", allOf |-> << Ty("integer") >>,
+       anyOf |-> << Ty("integer"), Ty("number") >>]),
   (* a required name without a declared property next to additionalProperties / patterns *)
   Sch([type |-> "object", title |-> "T", required |-> <<"a", "b">>, additionalProperties |-> FalseS,
        patternProperties |-> << <<"^b", Ty("integer")>> >>]),
